@@ -15,9 +15,13 @@
    no code and a blank origin before the transaction; an account deleted at Finalise
    (self-destruct or EIP-158) had no storage before the transaction.  The last guard is
    necessary: C15_storage_unguarded_refuted (witness replayed on the real code, corpus/C15).
+   C15_block_records_exactly_net_changes lifts this to the BLOCK by induction over the list of
+   steps (transactions and pre/post-execution system calls, each = SetTxContext and Prepare in
+   either order, any body, Finalise) with Merge after every step, as core/state_processor.go
+   builds the block list.
    [None]/[RPanic]/[j_bad] = the Go code panics. *)
 From stdpp Require Import gmap sorting.
-From GV Require Import Lib.Bytes Rlp.Item State.Ref State.Journal State.JournalProofs State.BalEnc State.BalEncProofs State.Bal State.BalProofs State.BalValidProofs.
+From GV Require Import Lib.Bytes Rlp.Item State.Ref State.Journal State.JournalProofs State.BalEnc State.BalEncProofs State.Bal State.BalProofs State.BalValidProofs State.BalBlockProofs.
 Local Open Scope N_scope.
 
 (* a fresh StateDB is at a transaction boundary *)
@@ -71,6 +75,65 @@ Theorem C15_bal_net_changes : ∀ b0 th ti idx r s c d l body,
            ∧ (k ∈ oreads (R !! a) ↔ (a, k) ∈ touched b1 body ∧ view_state (b_j b3) a k = view_state (b_j b0) a k).
 Proof. exact bal_net_changes_tx. Qed.
 Print Assumptions C15_bal_net_changes.
+
+(* C15_block_records_exactly_net_changes.  For EVERY list of steps ts run from a transaction
+   boundary with the guards at every step ([block_ok]), the merged list M — Merge of the lists
+   returned by Finalise, in order — is, for every address a and slot k, exactly the
+   specification computed from the getters before/after each step:
+     balance / nonce / code entries = spec_field: each step contributes {t_idx := end value} iff
+       the getter differs between the start and the end of that step, later steps win per index
+       (C15_spec_field_cons / C15_upd_set_lookup: the entry at index i is the end value of the
+       LAST step with index i that changed the field; with distinct indices every step's entry);
+     writes of slot k = spec_writes: each step contributes {t_idx := end value} iff GetState(a,k)
+       differs over that step — so a slot restored by a LATER step to its block-start value is
+       still a write at both indices (Example C15_restored_in_later_tx_is_write);
+     k is a read iff some step passed (a,k) to GetCommittedState and left it unchanged, and no
+       step of the block changed it (reads that never became writes).
+   Finalise of the last step leaves a transaction boundary (the next block's steps chain on). *)
+Theorem C15_block_records_exactly_net_changes : ∀ b0 ts,
+  tx_boundary (b_j b0) → block_ok b0 ts →
+  let M := (run_block b0 ∅ ts).2 in
+  tx_boundary (b_j (run_block b0 ∅ ts).1) ∧
+  ∀ a,
+    obal (M !! a) = spec_field a_bal a b0 ts ∅
+    ∧ ononce (M !! a) = spec_field a_nonce a b0 ts ∅
+    ∧ ocode (M !! a) = spec_field a_code a b0 ts ∅
+    ∧ ∀ k, owrites (M !! a) !! k = spec_writes a k b0 ts None
+           ∧ (k ∈ oreads (M !! a) ↔ some_read a k b0 ts ∧ spec_writes a k b0 ts None = None).
+Proof. exact block_records_exactly_net_changes. Qed.
+Print Assumptions C15_block_records_exactly_net_changes.
+
+(* [run_tx] is the sealed form of one step: SetTxContext/Prepare, body, Finalise *)
+Theorem C15_run_tx_eq : run_tx = run_tx_def.
+Proof. exact run_tx_eq. Qed.
+Print Assumptions C15_run_tx_eq.
+
+(* reading the specification *)
+Theorem C15_spec_field_cons : ∀ f a b t rest i,
+  spec_field f a b (t :: rest) ∅ !! i =
+    match spec_field f a (run_tx b t).1 rest ∅ !! i with
+    | Some v => Some v
+    | None => upd_set (t_idx t) (f (pre_data (b_j (run_tx b t).1) a)) (f (pre_data (b_j b) a)) !! i
+    end.
+Proof. exact spec_field_cons. Qed.
+Print Assumptions C15_spec_field_cons.
+
+Theorem C15_upd_set_lookup : ∀ idx post pre i,
+  upd_set idx post pre !! i = if bool_decide (i = idx ∧ post ≠ pre) then Some post else None.
+Proof. exact upd_set_lookup. Qed.
+Print Assumptions C15_upd_set_lookup.
+
+Theorem C15_spec_writes_cons : ∀ a k b t rest,
+  spec_writes a k b (t :: rest) None =
+    w_union (spec_writes a k (run_tx b t).1 rest None)
+            (st_write (t_idx t) (view_state (b_j (run_tx b t).1) a k) (view_state (b_j b) a k)).
+Proof. exact spec_writes_cons. Qed.
+Print Assumptions C15_spec_writes_cons.
+
+(* the C15-1 seed: slot 0 of contract 1 set to 5 in tx 1 and restored to 0 in tx 2, read in tx 3:
+   the merged block list has slot 0 -> {1 := 5, 2 := 0} and no read of slot 0 *)
+Example C15_restored_in_later_tx_is_write : restored_later_check = true.
+Proof. vm_compute. reflexivity. Qed.
 
 (* the blank-storage guard is necessary: an empty account WITH storage, touched, is deleted by
    EIP-158; GetState goes from 5 to 0 and the returned list (which contains the account) has no
